@@ -41,6 +41,7 @@ D2R = float(np.deg2rad(1.0))
 NUM, _DEN = D2R.as_integer_ratio()
 TEXP = _DEN.bit_length() - 1
 assert _DEN == 1 << TEXP
+PI_F = float(np.pi)              # the double the code clamps great-circle radii at
 EMB = 110                      # embedding scale 2^-EMB for unit vectors handed to the model
 PI = mp.pi
 
@@ -486,6 +487,7 @@ def case_scale(gd, c):
     vals = [v for kind in KINDS for a in gd.f[kind] for v in a] + [v for q in c["queries"] for v in q]
     if c.get("r") is not None:
         vals.append(c["r"])
+        vals.append(PI_F)
     return max(exp_needed(v) for v in vals)
 
 
@@ -535,12 +537,12 @@ class ModelRunner:
                 if c["type"] == "knn":
                     add("query", i, sx([NUM, TEXP, g, kd, sy, c["mcode"], q, c["in_radians"], c["k"]]))
                 else:
-                    add("query_radius", i, sx([NUM, TEXP, tr, g, kd, sy, c["mcode"], q, c["in_radians"], scaled(c["r"], S)]))
+                    add("query_radius", i, sx([NUM, TEXP, scaled(PI_F, S) << TEXP, tr, g, kd, sy, c["mcode"], q, c["in_radians"], scaled(c["r"], S)]))
             else:
                 add("coords", i, sx([NUM, g, kd, sy]))
                 add("prepare", i, sx([NUM, TEXP, sy, 0, q, c["in_radians"]]))
                 if c["type"] == "radius":
-                    add("rkey", i, sx([NUM, TEXP, tr, sy, 0, scaled(c["r"], S)]))
+                    add("rkey", i, sx([NUM, TEXP, scaled(PI_F, S) << TEXP, tr, sy, 0, scaled(c["r"], S)]))
         out = {}
         for cmd, lst in batches.items():
             r = ck.run_model(cmd, [l for _, l in lst])
@@ -576,8 +578,8 @@ class ModelRunner:
                 if rr < 0:
                     res[i] = {"ok": False, "raw": "r"}
                     continue
-                if rr >= PI:
-                    rk = 5 << (2 * EMB)          # beyond the half turn every chord (<= 2) qualifies
+                if rr >= mp.mpf(PI_F):
+                    rk = 5 << (2 * EMB)          # clamped at the half turn: every chord (<= 2) qualifies
                 else:
                     chord = 2 * mp.sin(rr / 2)
                     rk = int(mp.floor(chord * chord * mp.mpf(2) ** (2 * EMB)))
@@ -874,7 +876,7 @@ def main(ck):
         "clauses_checked_on_impl": ["knn_shape", "knn_indices", "knn_nearest", "knn_order", "knn_distance_unit", "radius_shape",
                                     "radius_indices", "radius_set", "radius_count", "radius_distance_unit",
                                     "cache_reflects_request", "raises"],
-        "partial": "sklearn's trees are assumed to equal brute force (validated here on every query); float rounding is bounded "
+        "partial": "sklearn's trees are assumed to equal brute force (validated here on every query; great-circle radii are clamped at pi by the wrapper because sklearn's reduced haversine distance is not monotone beyond it); float rounding is bounded "
                    "empirically by the stated tolerances; the haversine ordering enters the model through unit vectors computed "
                    "outside Coq (justified by C11_haversine_chord and C11_chord_arc)"})
     ck.trusted += ["sklearn.neighbors.BallTree/KDTree modelled as brute force (nearest first, ties aside)",
